@@ -605,6 +605,10 @@ pub fn execute(c: &DeCase) -> LegReport {
                 }
             }
         }
+        // The injected I/O error was actually returned to the visitor on a call the
+        // model does not make (an implementation may probe for a third element, or
+        // read on after it has what it needs): failing with that error is legitimate.
+        (Expect::Ok(..), Err(_)) if out.fired => rep.probes.hit("de_io_error_on_call_beyond_model_propagated"),
         (Expect::Ok(h, l), Err(e)) => rep.violations.push(viol(
             "RT_REJECTED_VALID",
             format!("intact valid record ({}, {}) rejected: {}", values::hex(*h), values::hex(*l), e.msg),
